@@ -56,6 +56,29 @@ PROPS = {
              'variables, chain-dependent, sparse, identical rows) x 1-7 variables x 1-40 rows x four smoothing constants x '
              'explicit and random roots x identity and shuffled scope labels; non-trivial = at least two variables; distinct = '
              'distinct (data, alpha, scope, root request)',
+    ),    'C09': dict(
+        module='c09',
+        modules=['DeeprobModel.Props.C09', 'DeeprobModel.Props.C09Net'],
+        theorems=['Deeprob.Circ.prune_preserves_eval', 'Deeprob.Circ.prune_preserves_eval_valid', 'Deeprob.Circ.prune_valid',
+                  'Deeprob.Circ.prune_scope', 'Deeprob.Circ.prune_normalised', 'Deeprob.Circ.prune_normal_form',
+                  'Deeprob.Circ.prune_fix_tree', 'Deeprob.Circ.prune_idem', 'Deeprob.pruneNetWith_eval', 'Deeprob.pruneNet_eval',
+                  'Deeprob.prune_keeps_sharing', 'Deeprob.old_prune_single_child'],
+        fragments=[],
+        rule='hand-made witnesses (coinciding merged children, same child twice, nested same-kind nodes, single-child chains) and '
+             'random valid circuits with sharing, chains and nested same-kind nodes over Bernoulli / Categorical leaves; '
+             'non-trivial = more than one node; distinct = distinct node table',
+    ),    'C10': dict(
+        module='c10',
+        modules=['DeeprobModel.Props.C10', 'DeeprobModel.Props.C10Net', 'DeeprobModel.Props.Clt'],
+        theorems=['Deeprob.marginalize_guards', 'Deeprob.Circ.marginalize_eval', 'Deeprob.Circ.marginalize_eval_restrict',
+                  'Deeprob.Circ.marginalize_is_marginal', 'Deeprob.Circ.marginalize_scope', 'Deeprob.Circ.marginalize_scope_eq',
+                  'Deeprob.Circ.marginalize_valid', 'Deeprob.Circ.marginalize_none_iff', 'Deeprob.Circ.marginalize_accepts',
+                  'Deeprob.marginalizeNetWith_eval', 'Deeprob.marginalizeNet_eval', 'Deeprob.Clt.toPc_eval', 'Deeprob.Clt.pc_valid'],
+        fragments=[],
+        rule='random valid circuits (sharing, chains, nested same-kind nodes; Bernoulli / Categorical leaves; one third with '
+             'Chow-Liu-tree leaves) x kept subsets of the root scope (all for small scopes) x all assignments of the kept variables; '
+             'circuits returned by learn_xpc (structured decomposable, CLT leaves) and LearnSPN with binary-clt leaves; the three '
+             'argument guards; non-trivial = inner node and a proper kept subset; distinct = distinct (node table, kept set)',
     ),
 }
 
